@@ -13,13 +13,13 @@
  *                                                                     -> err | ok te=<n> out=<n> done=<0|1>
  *  hoff <hoff0> <hex>           http_header_parse_hoff() on a heap hoff[8192] (sentinel filled)
  *                                                                     -> <hlen> <hoff0> <maxidx> <fnv32 of hoff[0..maxidx]> <tail clean|dirty>
- *  rng <len> <hex>              http_range_parse() (text after "bytes=")  -> <npairs> a-b ...
+ *  rng <len> <hex>              http_range_parse() (text after "bytes=") on an exact-size heap ranges[RMAX*2]
+ *                                                                     -> <npairs> a-b ...
  *  buf <op>...                  buffer growth on one buffer: p<N> prepare_append, c<N> commit,
  *                               e<N> extend, y<N> prepare_copy, t<N> truncate, x clear, f free_ptr,
  *                               R<N> buffer_realloc(b,N) directly
  *                               -> after every op "<used>/<size>", or "abort" (rest of ops skipped)
  *  ckr <n> <x> <elt>            ck_realloc_u32(&NULL, n, x, elt)       -> ok <bytes> | abort
- *  itos <dec>                   li_itostrn / li_utostrn round trip      -> hex
  */
 #include "first.h"
 #include "harness_common.h"
@@ -106,7 +106,6 @@ int main(void) {
     sa.sa_handler = on_abort; sa.sa_flags = SA_NODEFER;
     sigaction(SIGABRT, &sa, NULL);
     int devnull = open("/dev/null", O_WRONLY);
-    if (devnull >= 0 && !getenv("LTV_KEEP_STDERR_ASSERT")) { /* assertion backtraces are noise */ }
 
     request_st rq; memset(&rq, 0, sizeof(rq));
     request_st * const r = &rq;
@@ -236,13 +235,6 @@ int main(void) {
             ck_realloc_u32(&list, nn, x, e);
             printf("ok %llu\n", (unsigned long long)((nn + x) * e));
             free(list);
-        }
-        else if (0 == strcmp(op, "itos") && ltv_ntok == 2) {
-            char bufi[LI_ITOSTRING_LENGTH + 1];
-            long long v = strtoll(ltv_tok[1], NULL, 10);
-            size_t l = li_itostrn(bufi, sizeof(bufi), (intmax_t)v);
-            ltv_puthex(bufi, l);
-            fputc('\n', stdout);
         }
         else puts("bad-op");
         ltv_armed = 0;
